@@ -209,6 +209,20 @@ pub fn run_case(bytes: &[u8], pws: &[Vec<u8>]) -> (Tally, u64) {
                         Ok(Err(_)) => t.add("by_index_decrypt", "invalid_password"),
                         Err(e) => t.add("by_index_decrypt", err_class(&e)),
                     });
+                    // ... and through the std conveniences, which retry on ErrorKind::Interrupted: an error an implementation
+                    // reports with that kind for a PERMANENT condition makes them spin forever (the watchdog sees that)
+                    t.guard("by_index_decrypt.read_to_end", |t| match ar.by_index_decrypt(i, pw) {
+                        Ok(Ok(mut f)) => {
+                            let mut v = Vec::new();
+                            let c = if f.read_to_end(&mut v).is_ok() { "ok" } else { "err" };
+                            t.add("by_index_decrypt.read_to_end", c);
+                            let mut sink = std::io::sink();
+                            let c = if std::io::copy(&mut f, &mut sink).is_ok() { "ok" } else { "err" };
+                            t.add("by_index_decrypt.copy", c);
+                        }
+                        Ok(Err(_)) => t.add("by_index_decrypt", "invalid_password"),
+                        Err(e) => t.add("by_index_decrypt", err_class(&e)),
+                    });
                 }
             }
             t.guard("by_index_out", |t| {
